@@ -67,6 +67,8 @@ func New6(session *packet.Session) (*Handler6, error) {
 // Close releases underlying resources.
 // The handler is not longer usable after calling Close().
 func (h *Handler6) Close() error {
+	h.Lock() // closed and closeChan are shared with ProcessPacket (RA) and the spoof loops
+	defer h.Unlock()
 	if h.closed {
 		return nil
 	}
@@ -182,11 +184,13 @@ func (h *Handler6) ProcessPacket(pkt packet.Frame) (err error) {
 
 		// wakeup all pending spoof goroutines
 		// we want to immediately spoof hosts after an RA
+		h.Lock()
 		if h.huntList.Len() > 0 && !h.closed { // after Close the channel is already closed
 			ch := h.closeChan
 			h.closeChan = make(chan bool)
 			close(ch) // this will cause all spoof loop select to wakeup
 		}
+		h.Unlock()
 
 		repeat++
 		if repeat%4 != 0 { // skip if too often - home router send RA every 4 sec
